@@ -744,7 +744,7 @@ def dict_method(I, D, name, args, kwargs, node):
     if name == 'get':
         k = args[0]
         default = args[1] if len(args) > 1 else None
-        if is_concrete(k):
+        if is_concrete(k) or isinstance(k, SObj):
             return D.d.get(k, default)
         return dict_lookup(I, D, k, node, default=(default,))
     if name == 'items':
@@ -944,7 +944,7 @@ def subscript(I, obj, idx, node):
             raise PyRaise(TypeError)
         return seq_index(I, obj.items, idx, node)
     if isinstance(obj, SDict):
-        if is_concrete(idx):
+        if is_concrete(idx) or isinstance(idx, SObj):      # heap objects are keys by identity
             try:
                 if idx in obj.d:
                     return obj.d[idx]
@@ -1001,7 +1001,7 @@ def store_subscript(I, obj, idx, v, node):
         obj.items[j] = v
         return
     if isinstance(obj, SDict):
-        if not is_concrete(idx):
+        if not is_concrete(idx) and not isinstance(idx, SObj):
             raise Unsupported("dict store with symbolic key")
         try:
             obj.d[idx] = v
